@@ -41,7 +41,7 @@ type c16sub struct {
 func (o *c16obj) acked() int64 { return atomic.LoadInt64(&o.ackStamp) }
 
 func c16(c *wk.Ctx) {
-	c.Note("rule", "each plan hosts a fresh Probe service and runs a PRNG sequence, then 2-8 concurrent goroutines, of: Service.Add (new object), call work(token) through a proxy, SubscribeTick, Service.Remove, remote terminate() through the object's proxy, removal of an already removed id, remote terminate of a removed object, calls after removal. Oracle: ids returned by Add are unique among live objects; for every object whose removal was acknowledged (Remove returned nil / terminate replied): its OnTerminate hook ran exactly once at quiescence (0 for live objects), every call started after the acknowledgement returns an error and never reaches the object (per-token execution counter), its subscribers' channels get closed (quiescence detector); every object still live answers correctly at the end. Stream flood: an object whose method is parked is flooded with 8-40 calls from 3-6 connections (mailbox full, routing goroutines waiting) and is terminated remotely / removed locally in the middle, then released: every call and the termination return, no call runs twice, hook once, later calls fail, the sibling answers on every connection. Stream crowd: one object with 3-24 registrations spread over 1-5 raw connections x 3 signals/properties (+ the generated proxies of a session) is removed or terminates itself: (some registrations are cancelled again, one handler id may be tried on two signals) every (connection, signal) with an acknowledged registration still in place receives the termination error, every proxy channel closes, the hook ran once, the sibling answers. Distinct non-trivial = distinct plans with at least one acknowledged removal followed by a call to the removed object.")
+	c.Note("rule", "each plan hosts a fresh Probe service and runs a PRNG sequence, then 2-8 concurrent goroutines, of: Service.Add (new object), call work(token) through a proxy, SubscribeTick, Service.Remove, remote terminate() through the object's proxy, removal of an already removed id, remote terminate of a removed object, calls after removal. Oracle: ids returned by Add are unique among live objects; for every object whose removal was acknowledged (Remove returned nil / terminate replied): its OnTerminate hook ran exactly once at quiescence (0 for live objects), every call started after the acknowledgement returns an error and never reaches the object (per-token execution counter), its subscribers' channels get closed (quiescence detector); every object still live answers correctly at the end. Stream collide: the global math/rand source the service draws identifiers from is re-seeded with one seed before several Add calls, so that each draws an identifier already held: every Add returns, identifiers are unique among the live objects, every object answers and runs its call once. Stream flood: an object whose method is parked is flooded with 8-40 calls from 3-6 connections (mailbox full, routing goroutines waiting) and is terminated remotely / removed locally in the middle, then released: every call and the termination return, no call runs twice, hook once, later calls fail, the sibling answers on every connection. Stream crowd: one object with 3-24 registrations spread over 1-5 raw connections x 3 signals/properties (+ the generated proxies of a session) is removed or terminates itself: (some registrations are cancelled again, one handler id may be tried on two signals) every (connection, signal) with an acknowledged registration still in place receives the termination error, every proxy channel closes, the hook ran once, the sibling answers. Distinct non-trivial = distinct plans with at least one acknowledged removal followed by a call to the removed object.")
 	var w *world
 	defer func() {
 		if w != nil {
@@ -70,6 +70,7 @@ func c16(c *wk.Ctx) {
 		n++
 		c16one(c, i, rng, w, sess, fmt.Sprintf("P%d", n))
 	})
+	c.Cases("collide", c.Pick(40, 2000), func(i int, rng *rand.Rand) { c16collide(c, i, rng) })
 	c.Cases("flood", c.Pick(40, 4000), func(i int, rng *rand.Rand) { c16flood(c, i, rng) })
 	c.Cases("crowd", c.Pick(150, 20000), func(i int, rng *rand.Rand) {
 		if w == nil || n%60 == 0 {
@@ -340,6 +341,110 @@ func c16crowd(c *wk.Ctx, i int, rng *rand.Rand, w *world, sess bus.Session, name
 	if c.WantSample() && i%10 == 0 {
 		c.Sample(map[string]interface{}{"stream": "crowd", "plan": i, "connections": nConn, "registrations": len(want), "proxy_subscriptions": nProxy, "removal": how})
 	}
+}
+
+// c16collide: identifier collisions are forced by re-seeding the global math/rand source the service
+// draws its identifiers from: the same seed is installed before several Add calls, so that each draws
+// the identifier a live object already holds. Every Add must still return (quiescence detector), the
+// identifiers must be unique among the live objects and every object must answer.
+func c16collide(c *wk.Ctx, i int, rng *rand.Rand) {
+	w, err := newWorld("unix", nil)
+	if err != nil {
+		c.Inconclusive("collide", i, "world: "+err.Error())
+		return
+	}
+	defer w.close()
+	ps, err := w.addProbe("K", 1, nil)
+	if err != nil {
+		c.Inconclusive("collide", i, "addProbe: "+err.Error())
+		return
+	}
+	sess, err := w.session()
+	if err != nil {
+		c.Inconclusive("collide", i, "session: "+err.Error())
+		return
+	}
+	defer sess.Terminate()
+	var progress int64
+	n := 2 + rng.Intn(6)
+	seed := rng.Int63()
+	type added struct {
+		id   uint32
+		impl *svc.Impl
+	}
+	var objs []added
+	done := make(chan struct{})
+	var addErr error
+	go func() {
+		defer close(done)
+		for k := 0; k < n; k++ {
+			im := svc.NewImpl(fmt.Sprintf("K#%d", k))
+			if rng.Intn(4) != 0 {
+				rand.Seed(seed) // the next identifier drawn repeats the first one of this seed
+			}
+			id, err := ps.service.Add(probe.ProbeObject(im))
+			atomic.AddInt64(&progress, 1)
+			if err != nil {
+				addErr = err
+				return
+			}
+			objs = append(objs, added{id, im})
+		}
+	}()
+	detail := map[string]interface{}{"objects_added_with_a_repeated_seed": n}
+	if v, dump := stuck.Wait(done, &progress, 3*time.Minute); v == stuck.Stuck {
+		detail["dump"] = clipDump(dump)
+		c.Viol("collide", i, "add=never-returned/"+wk.PanicSite(dump), "Service.Add never returned when the identifier it drew was already held", detail)
+		c.Abandon("service lock held for ever")
+		return
+	} else if v == stuck.Watchdog {
+		c.Inconclusive("collide", i, "watchdog")
+		return
+	}
+	if addErr != nil {
+		c.Viol("collide", i, "add=error", "Service.Add failed: "+addErr.Error(), detail)
+		return
+	}
+	seen := map[uint32]bool{1: true}
+	for k, o := range objs {
+		if seen[o.id] {
+			c.Viol("collide", i, "add=duplicate-id", fmt.Sprintf("Add #%d returned identifier %d which a live object already holds", k, o.id), detail)
+			return
+		}
+		seen[o.id] = true
+	}
+	callsDone := make(chan struct{})
+	var callErr string
+	go func() {
+		defer close(callsDone)
+		for k, o := range objs {
+			p, err := sess.Proxy("K", o.id)
+			var out string
+			if err == nil {
+				out, err = probe.MakeProbe(sess, p).Work(uint64(k+1), "collide")
+			}
+			atomic.AddInt64(&progress, 1)
+			if err != nil || out != svc.F(uint64(k+1), "collide") || o.impl.ExecCount(uint64(k+1)) != 1 {
+				callErr = fmt.Sprintf("object %d (Add #%d): %q %v, executed %d times", o.id, k, out, err, o.impl.ExecCount(uint64(k+1)))
+				return
+			}
+		}
+	}()
+	if v, dump := stuck.Wait(callsDone, &progress, 3*time.Minute); v == stuck.Stuck {
+		detail["dump"] = clipDump(dump)
+		c.Viol("collide", i, "add=not-callable/never-returned", "a call to a freshly added object never returned", detail)
+		c.Abandon("calls blocked")
+		return
+	} else if v == stuck.Watchdog {
+		c.Inconclusive("collide", i, "watchdog")
+		return
+	}
+	if callErr != "" {
+		c.Viol("collide", i, "add=not-callable", "an object returned by Add does not answer: "+callErr, detail)
+		return
+	}
+	c.Count("collide_objects_added", int64(len(objs)))
+	c.Nontrivial(wk.Hash64("C16collide", i))
 }
 
 // c16flood: an object whose method is slow is flooded from several connections (its 10-slot mailbox is
